@@ -526,6 +526,28 @@ def rule_restricted(model):
                 norm(n.targets[0].value) == norm(ev[0].args[1]):
             guarded = any(isinstance(a, ast.If) and 'not in' in norm(a.test)
                           for a in ancestors(n))
+            if not guarded:
+                # guard clause: `if name in d: continue` earlier in the
+                # same block
+                dname = norm(n.targets[0].value)
+                kname = norm(n.targets[0].slice)
+                child = n
+                for a in ancestors(n):
+                    for fld in ('body', 'orelse'):
+                        lst = getattr(a, fld, None)
+                        if isinstance(lst, list) and child in lst:
+                            for prev in lst[:lst.index(child)]:
+                                if isinstance(prev, ast.If) and \
+                                        norm(prev.test) == \
+                                        f'{kname} in {dname}' and \
+                                        prev.body and isinstance(
+                                            prev.body[-1],
+                                            (ast.Continue, ast.Return,
+                                             ast.Raise, ast.Break)):
+                                    guarded = True
+                    if isinstance(a, (ast.For, ast.While, ast.FunctionDef)):
+                        break
+                    child = a
             r.instance(fi.where, n, 'name binding')
             if not guarded:
                 r.finding(fi.where, n, 'a namespace value can overwrite the '
